@@ -53,15 +53,21 @@ open GmqttVerif.Deliver
 
 /-- Every QoS 1/2 PUBLISH the broker accepts is acknowledged to its publisher with the same packet identifier:
     exactly one PUBACK (QoS 1) / PUBREC (QoS 2), nothing for QoS 0. "Accepts" = the connection exists, has a session,
-    and none of the refusal conditions (receive quota, maximum packet size, retain not available) applies. -/
+    and none of the refusal conditions applies: receive quota, maximum packet size, retain not available, and the
+    topic name / topic alias checks — a v5 Topic Alias is neither 0 nor above the advertised `topic_alias_maximum`
+    (`halias`), and a zero-length topic name comes only on a v5 connection together with an alias that is bound to a
+    non-empty name in the connection's alias table (`hempty`). -/
 theorem publish_ack_same_id (b : B) (r : PubReq) (c : Cli) (s : Sess)
     (hc : b.cli? r.conn = some c) (hs : b.sess? c.cid = some s)
+    (halias : ∀ a, c.v = 5 → r.alias = some a → a ≠ 0 ∧ a ≤ b.cfg.aliasMax)
+    (hempty : r.topic = "" →
+      c.v = 5 ∧ ∃ a p, r.alias = some a ∧ c.aliasIn.find? (fun p => p.1 == a) = some p ∧ p.2 ≠ "")
     (hquota : ¬ (c.v = 5 ∧ r.qos > 0 ∧ c.quota = 0))
     (hsize : ¬ (c.v = 5 ∧ b.cfg.maxPacket ≠ 0 ∧ r.size > b.cfg.maxPacket))
     (hret : ¬ (b.cfg.retainAvail = false ∧ r.retain = true)) :
     ∃ code, newH b (b.publish r) r.conn =
       (if r.qos = 1 then [Pkt.puback r.pid code] else if r.qos = 2 then [Pkt.pubrec r.pid code] else []) :=
-  publish_ack b r c s hc hs hquota hsize hret
+  publish_ack b r c s hc hs ⟨halias, hempty⟩ hquota hsize hret
 
 /-- Per-publisher order. Each `deliverMessage` appends its copies to the matched session queues under the server
     lock and ghost tags are issued in that order. For every `deliverMessage` step: (1) the invariant "every queue is
@@ -89,5 +95,32 @@ example : (wanted "c2" exTable "a/b" "c1").length = 2 := by decide
 example : wanted "c2" exTable "a/b" "c2" = [] := by decide
 example : (copiesFor "c1" (deliver false "c2" exTable exMsg (pickBy [])).2).map (·.qos) = [1, 2] := by decide
 example : (copiesFor "c1" (deliver true "c2" exTable exMsg (pickBy [])).2).map (fun x => (x.qos, x.sids, x.retained)) = [(2, [3, 4], true)] := by decide
+
+
+/-- a broker with one v5 connection that has bound alias 2 to "a/b", and a v4 subscriber -/
+def exB : B :=
+  let b : B := {}
+  let b := b.connect { conn := "p", cid := "pub", v := 5 }
+  let b := b.connect { conn := "s", cid := "sub", v := 4 }
+  let b := b.subscribe "s" 1 [{ name := "a/#", qos := 2 }] 0
+  b.publish { conn := "p", topic := "a/b", qos := 0, alias := some 2 }
+
+/-- the hypotheses of `publish_ack_same_id` hold for a QoS 2 PUBLISH that names its topic by alias only … -/
+example : ∃ c s, exB.cli? "p" = some c ∧ exB.sess? c.cid = some s ∧ c.v = 5 ∧
+    c.aliasIn.find? (fun p => p.1 == 2) = some (2, "a/b") ∧ (2 : Nat) ≤ exB.cfg.aliasMax ∧ c.quota ≠ 0 := by
+  refine ⟨_, _, rfl, rfl, ?_⟩
+  decide
+/-- … and the acknowledgement is the PUBREC with its id -/
+example : newH exB (exB.publish { conn := "p", topic := "", qos := 2, pid := 7, alias := some 2 }) "p" = [Pkt.pubrec 7 0] := by
+  decide
+/-- the excluded cases really are refusals: alias 0, unbound alias, alias above the maximum -/
+example : newH exB (exB.publish { conn := "p", topic := "x", qos := 1, pid := 7, alias := some 0 }) "p" = [.disconnect 0x94, .closed] := by
+  decide
+example : newH exB (exB.publish { conn := "p", topic := "", qos := 1, pid := 7, alias := some 3 }) "p" = [.disconnect 0x94, .closed] := by
+  decide
+example : newH exB (exB.publish { conn := "p", topic := "x", qos := 1, pid := 7, alias := some 11 }) "p" = [.disconnect 0x94, .closed] := by
+  decide
+example : newH exB (exB.publish { conn := "p", topic := "", qos := 1, pid := 7 }) "p" = [.disconnect 0x82, .closed] := by
+  decide
 
 end GmqttVerif.Broker
